@@ -31,21 +31,80 @@ def _axstore(c):
         c._pow_by_base = {}
         c._alg = {}
         c._uf_apps = {}
+        c._ax_by_trigger = {}
+        c._ax_always = []
+        c._ax_count = 0
+        c._occ_memo = {}
     return c
 
 
+_UF_NAMES = ("POW", "EXP", "LOG", "SQRT", "SIN", "COS")
+
+
+def _triggers_in(t, c):
+    """ids of UF applications / definitional symbols occurring in term t (memoised per context)."""
+    memo = c._occ_memo
+    k0 = t.get_id()
+    if k0 in memo:
+        return memo[k0][1]
+    stack = [(t, False)]
+    while stack:
+        u, done = stack.pop()
+        k = u.get_id()
+        if k in memo:
+            continue
+        if not done:
+            stack.append((u, True))
+            for ch in u.children():
+                if ch.get_id() not in memo:
+                    stack.append((ch, False))
+        else:
+            acc = set()
+            for ch in u.children():
+                acc |= memo[ch.get_id()][1]
+            if k in c._ax_by_trigger:
+                acc.add(k)
+            memo[k] = (u, frozenset(acc))      # keep the term alive: ids are only unique while it lives
+    return memo[k0][1]
+
+
 def instances(constraints, c):
-    """Axiom instances to add to a solver query."""
+    """Ground axiom instances relevant to a solver query: those about UF applications and definitional
+    symbols that occur in the constraints (transitively through the axioms themselves)."""
     _axstore(c)
-    return c.axioms
+    if constraints is None or len(c.axioms) != c._ax_count:
+        return c.axioms             # unknown query / list replaced by a harness: everything
+    todo = set()
+    for x in constraints:
+        todo |= _triggers_in(x, c)
+    seen = set()
+    out = []
+    while todo:
+        k = todo.pop()
+        if k in seen:
+            continue
+        seen.add(k)
+        for ax in c._ax_by_trigger.get(k, ()):
+            out.append(ax)
+            todo |= (_triggers_in(ax, c) - seen)
+    out.extend(c._ax_always)
+    return out
 
 
-def _add_axiom(c, key, ax):
+def _add_axiom(c, key, ax, trigger=None):
+    """Register a ground axiom; `trigger` is the application / symbol it is about (None: always used)."""
     _axstore(c)
     if key in c._ax_seen:
         return
     c._ax_seen.add(key)
     c.axioms.append(ax)
+    c._ax_count = len(c.axioms)
+    if trigger is None:
+        c._ax_always.append(ax)
+    else:
+        for t in (trigger if isinstance(trigger, (list, tuple)) else [trigger]):
+            c._keep.append(t)
+            c._ax_by_trigger.setdefault(t.get_id(), []).append(ax)
 
 
 def as_term(r):
@@ -62,7 +121,7 @@ def as_term(r):
     v = z3.Real(c.fresh_name("q"))
     dt = r.den_term()
     c._keep.append(r.n)
-    _add_axiom(c, key, v * dt == r.n)
+    _add_axiom(c, key, v * dt == r.n, trigger=v)
     c._uf_apps[key] = v
     if not hasattr(c, "_uf_defs"):
         c._uf_defs = {}
@@ -144,9 +203,9 @@ def mkpow(b, e):
     app = POW(bt, et)
     c._keep.append(app)
     c.mark_positive(app)
-    _add_axiom(c, ("powpos", app.get_id()), z3.Implies(bt > 0, app > 0))
-    _add_axiom(c, ("pow1", app.get_id()), z3.Implies(et == 1, app == bt))
-    _add_axiom(c, ("pow0", app.get_id()), z3.Implies(et == 0, app == 1))
+    _add_axiom(c, ("powpos", app.get_id()), z3.Implies(bt > 0, app > 0), trigger=app)
+    _add_axiom(c, ("pow1", app.get_id()), z3.Implies(et == 1, app == bt), trigger=app)
+    _add_axiom(c, ("pow0", app.get_id()), z3.Implies(et == 0, app == 1), trigger=app)
     if z3.is_rational_value(et):
         q = et.as_fraction()
         if abs(q.numerator) == 1 and 2 <= q.denominator <= MAX_INT_POW:
@@ -155,12 +214,12 @@ def mkpow(b, e):
                 pk = pk * app
             # (b^(1/k))^k = b   and   (b^(-1/k))^k * b = 1   for b > 0
             _add_axiom(c, ("powroot", app.get_id()),
-                       z3.Implies(bt > 0, (pk == bt) if q.numerator == 1 else (pk * bt == 1)))
+                       z3.Implies(bt > 0, (pk == bt) if q.numerator == 1 else (pk * bt == 1)), trigger=app)
     for (e2, app2) in bucket:
         _add_axiom(c, ("powstep", app.get_id(), app2.get_id()),
                    z3.And(z3.Implies(et == e2 + 1, app == bt * app2),
                           z3.Implies(e2 == et + 1, app2 == bt * app),
-                          z3.Implies(et == e2, app == app2)))
+                          z3.Implies(et == e2, app == app2)), trigger=[app, app2])
     bucket.append((et, app))
     return R(n=app, d=())
 
@@ -185,7 +244,7 @@ def _proved(c, claim, timeout_ms=1000):
     s.set("timeout", timeout_ms)
     for a in c.assumptions:
         s.add(a)
-    for a in getattr(c, "axioms", []):
+    for a in instances(list(c.assumptions) + [claim], c):
         s.add(a)
     s.add(z3.Not(claim))
     return s.check() == z3.unsat
@@ -233,8 +292,8 @@ def sqrt(r):
     t = as_term(r)
     app = SQRT(t)
     c._keep.append(app)
-    _add_axiom(c, ("sqrt", app.get_id()), z3.Implies(t >= 0, z3.And(app >= 0, app * app == t)))
-    _add_axiom(c, ("sqrtpos", app.get_id()), z3.Implies(t > 0, app > 0))
+    _add_axiom(c, ("sqrt", app.get_id()), z3.Implies(t >= 0, z3.And(app >= 0, app * app == t)), trigger=app)
+    _add_axiom(c, ("sqrtpos", app.get_id()), z3.Implies(t > 0, app > 0), trigger=app)
     return R(n=app, d=())
 
 
@@ -247,7 +306,7 @@ def exp(r):
     app = EXP(t)
     c._keep.append(app)
     c.mark_positive(app)
-    _add_axiom(c, ("exp", app.get_id()), app > 0)
+    _add_axiom(c, ("exp", app.get_id()), app > 0, trigger=app)
     return R(n=app, d=())
 
 
